@@ -4,6 +4,7 @@ package snaps
 
 // Contracts for the govc verifier (see /verif/DESIGN.md). This file contains comments only.
 
+//@ axiom dmp_alloc: dmp != nil
 //@ axiom err_sentinels: errSnapNotFound != nil && errInvalidJSON != nil && errSnapNotFound != errInvalidJSON
 //@ axiom event_kinds: true
 
@@ -164,10 +165,70 @@ package snaps
 //@   loop 1 invariant forall i in 0..$idx: ss[i] == (seg(old(s), i) == "---" ? "/-/-/-/" : seg(old(s), i))
 //@   loop 1 invariant forall i in $idx..len(ss): ss[i] == seg(old(s), i)
 //@
+// ---- diff report (C02, C13) ----------------------------------------------------------------------
+//@ func splitNewlines(s) returns (r)
+//@   mode lines
+//@   assigns nothing
+//@   ensures len(r) == nl(s) && (forall i in 0..nl(s): r[i] == seg(s, i) + "\n")
+//@
+//@ func isSingleline(s) returns (r)
+//@   mode str
+//@   pure
+//@   assigns nothing
+//@   ensures r == singleline(s)
+//@
+//@ func hasNewLine(b) returns (r)
+//@   mode str
+//@   pure
+//@   requires len(b) >= 1
+//@   assigns nothing
+//@   ensures r == (b[len(b) - 1] == 10)
+//@
+//@ func shouldPrintHighlights(a, b) returns (r)
+//@   mode str
+//@   pure
+//@   assigns nothing
+//@   ensures r ==> !colors.NOCOLOR && a != "" && b != "" && singleline(a) && singleline(b)
+//@   ensures [valid_utf8] r ==> validUTF8(a) && validUTF8(b)
+//@
+//@ func printRange(w, opcodes)
+//@   mode str
+//@   requires len(opcodes) >= 1
+//@   assigns wbuf[w]
+//@   ensures prefixof(old(wbuf[w]), wbuf[w]) && len(wbuf[w]) > len(old(wbuf[w]))
+//@
+//@ func intPadding$1(n) returns (c)
+//@   mode str
+//@   assigns nothing
+//@ func intPadding(inserted, deleted) returns (a, b)
+//@   mode str
+//@   assigns nothing
+//@
+//@ func singlelineDiff(expected, received) returns (r, inserted, deleted)
+//@   mode str
+//@   requires dmp != nil
+//@   assigns alloc
+//@   ensures [nonempty] validUTF8(expected) && validUTF8(received) && expected != received ==> r != ""
+//@   loop 1 invariant a != nil && b != nil && a != b && !old(alloc)[a] && !old(alloc)[b] && len(wbuf[a]) >= 2 && len(wbuf[b]) >= 2
+//@   loop 1 invariant forall r Ref: old(alloc)[r] ==> wbuf[r] == old(wbuf)[r]
+//@
+//@ func buildDiffReport(inserted, deleted, diff, name, line) returns (r)
+//@   mode str
+//@   assigns alloc, nDelPrinted, nInsPrinted
+//@   ensures (r == "") == (diff == "")
+//@   ensures [header_lines] diff == "" ==> nDelPrinted == old(nDelPrinted) && nInsPrinted == old(nInsPrinted)
+//@   ensures [header_lines2] diff != "" ==> nDelPrinted == old(nDelPrinted) + 1 && nInsPrinted == old(nInsPrinted) + 1
+//@
+//@ func getUnifiedDiff(a, b) returns (r, inserted, deleted)
+//@   mode lines
+//@   assigns alloc, nDelPrinted, nInsPrinted
+//@   ensures [nonempty] a != b ==> r != ""
+//@
 //@ func prettyDiff(expected, received, name, line) returns (r)
 //@   mode ctl
-//@   assigns nothing
-//@   ensures (r == "") == (expected == received)
+//@   requires dmp != nil
+//@   assigns alloc, nDelPrinted, nInsPrinted
+//@   ensures [iff] (r == "") == (expected == received)
 //@
 //@ func addNewSnapshot(testID, snapshot, snapPath) returns (err)
 //@   mode lines
